@@ -489,11 +489,13 @@ def _plan(tier, seed):
         ]
         for b, p, k, kind in picks:
             cases.append(mk(b, [{"point": p, "k": k, "kind": kind}]))
+        # two successive kills, then the re-run (k of the second stage counts the saves of that run)
+        cases.append(mk(A, [{"point": "before_save", "k": 2, "kind": "hard"}, {"point": "mid_save", "k": 1, "kind": "soft"}]))
         for w in (1, 2):
             cases.append(mk(A, [], workers=w))
         cases.append(mk(B, [], workers=2))
         # order: first kill cases, worker runs early enough to be inside the first wave
-        cases = cases[:5] + cases[-3:] + cases[5:-3]
+        cases = cases[:5] + cases[-4:] + cases[5:-4]
     else:
         n = 4
         A = dict(base("stft_dither_deltas", n), data_seed=int(rng.integers(0, 2**31)), seed=int(rng.integers(0, 2**20)))
@@ -580,7 +582,7 @@ def run(tier: str, seed: int) -> dict:
             "configs {STFT fbank + dither + deltas, raw samples + preemph + dither}, fixed --seed, "
             + (
                 "3 utterances; 13 kill points covering every kind (before/mid/after save, mid manifest line, after return; "
-                "9 hard, 4 soft); workers {1,2}"
+                "9 hard, 4 soft); one double-kill scenario; workers {1,2}"
                 if tier == "quick"
                 else "4 (and 3) utterances; ALL kill points (4 per utterance + after return) x {hard, soft} for both "
                 "configs; 4 kill cases with worker processes / changed worker count on resume; 8 double-kill "
